@@ -22,7 +22,8 @@ def make_doc(seed, family, i, **kw):
     r = rng(seed, "doc", family, i)
     size = kw.get("size") or r.choice(["small", "medium", "medium", "large"] if i % 7 == 0 else ["small", "medium", "medium"])
     rare = kw.get("rare", i % 4 == 0)
-    return docmodel.render(r, dialect=kw.get("dialect"), size=size, rare=rare, ascii_only=kw.get("ascii_only", False))
+    return docmodel.render(r, dialect=kw.get("dialect"), size=size, rare=rare, ascii_only=kw.get("ascii_only", False),
+                           special=kw.get("special", 0.0), deep=kw.get("deep", False))
 
 
 def generator_sound(R):
